@@ -196,23 +196,29 @@ func runGio(c *Ctx) {
 			})
 			a.expect("R15", name+"/detaches-stream-and-func", 1, "paths of Close")
 		}
-		// the stream and the close function are detached by Close only: no other method of the type
-		// forgets them (an io.EOF from the wrapped stream is not a Close)
+		// the stream and the close function are detached by Close only: no path of any other exported
+		// method of the type (helpers walked in place) forgets them — an io.EOF from the wrapped stream
+		// is not a Close
 		for _, od := range pkgDecls(c, "iocloser") {
 			od := od
-			if rn := core.RecvNamed(od.Obj); rn == nil || rn.Obj().Name() != tn.typ || od.Obj.Name() == "Close" {
+			if rn := core.RecvNamed(od.Obj); rn == nil || rn.Obj().Name() != tn.typ || od.Obj.Name() == "Close" || !od.Obj.Exported() {
 				continue
 			}
-			ast.Inspect(od.Decl.Body, func(n ast.Node) bool {
-				for _, f := range []string{sf, cf} {
-					if rhs, ok := assignsFieldNode(od, n, f); ok {
-						bad := rhs == nil || isNilExpr(rhs, &core.Frame{Pkg: od.Pkg})
-						a.note("R15", core.FuncName(od.Obj)+"/detached-only-by-close", n.Pos(), bad,
-							"the wrapped stream and the close function are cleared by Close only",
-							core.FuncName(od.Obj)+" clears "+f+": the wrapper stops passing data through (or forgets its close function) although Close was not called", nil)
+			oname := core.FuncName(od.Obj)
+			c.Walk("R15", &core.Config{Follow: helperFollow("iocloser")}, core.Entry{Decl: od}, func(p *core.Path) {
+				for _, ev := range p.Events {
+					for _, f := range []string{sf, cf} {
+						if assignsField(ev, f, "") {
+							bad := ev.Rhs == nil || isNilExpr(ev.Rhs, ev.Frame)
+							a.note("R15", oname+"/detached-only-by-close", ev.Pos, bad,
+								"the wrapped stream and the close function are cleared by Close only",
+								oname+" clears "+f+": the wrapper stops passing data through (or forgets its close function) although Close was not called", p)
+						}
 					}
 				}
-				return true
+				if p.End == core.EndReturn {
+					a.note("R15", oname+"/detached-only-by-close", od.Decl.Pos(), false, "the wrapped stream and the close function are cleared by Close only", "", p)
+				}
 			})
 		}
 		if d := c.declByName("R15", "iocloser", tn.typ, tn.io); d != nil {
@@ -1158,24 +1164,20 @@ func runGqueue(c *Ctx) {
 	)
 	for _, d := range pkgDecls(c, "linkedlist") {
 		d := d
-		if rn := core.RecvNamed(d.Obj); rn == nil || rn.Obj().Name() != "LinkedList" {
+		// the exported methods, with the unexported helpers walked in place (a method split into
+		// helpers is judged as one step of the list)
+		if rn := core.RecvNamed(d.Obj); rn == nil || rn.Obj().Name() != "LinkedList" || !d.Obj.Exported() {
 			continue
 		}
-		writes := false
-		ast.Inspect(d.Decl.Body, func(n ast.Node) bool {
-			if _, ok := assignsFieldNode(d, n, headF); ok {
-				writes = true
-			}
-			if _, ok := assignsFieldNode(d, n, tailF); ok {
-				writes = true
-			}
-			return true
-		})
-		if !writes {
+		if !bodyOrCalleesMatch(c, d, func(dd *core.FuncDecl, n ast.Node) bool {
+			_, ok1 := assignsFieldNode(dd, n, headF)
+			_, ok2 := assignsFieldNode(dd, n, tailF)
+			return ok1 || ok2
+		}, 2) {
 			continue
 		}
 		name := core.FuncName(d.Obj)
-		c.Walk("R10", &core.Config{}, core.Entry{Decl: d}, func(p *core.Path) {
+		c.Walk("R10", &core.Config{Follow: helperFollow("linkedlist")}, core.Entry{Decl: d}, func(p *core.Path) {
 			if p.End != core.EndReturn {
 				return
 			}
@@ -1184,12 +1186,35 @@ func runGqueue(c *Ctx) {
 			st := map[string]int{headF: -1, tailF: -1}
 			firstWrite := len(p.Events)
 			freshLocal := map[*types.Var]bool{}
+			fromList := map[*types.Var]bool{}
 			for i, ev := range p.Events {
 				if ev.Kind != core.KAssign || ev.FieldInit {
 					continue
 				}
 				if v := identVar(ev.Lhs, ev.Frame); v != nil && !v.IsField() {
 					freshLocal[v] = ev.Rhs != nil && ev.RhsIdx < 0 && isFreshExpr(ev.Rhs, ev.Frame.Info())
+					fromList[v] = false
+					if ev.Rhs != nil && ev.RhsIdx < 0 {
+						if fv := fieldVar(ev.Rhs, ev.Frame); fv != nil {
+							switch core.FieldName(fv) {
+							case headF, tailF, "linkedlist.linkedListElem.next":
+								fromList[v] = true
+							}
+						}
+					}
+				}
+				// an element that is linked in (stored into head, tail or a next pointer) is either freshly
+				// allocated on this path or already part of the list: a recycled element carries a stale
+				// next pointer into the list
+				if ev.Var != nil && ev.Var.IsField() && ev.Rhs != nil && ev.RhsIdx < 0 {
+					switch core.FieldName(ev.Var) {
+					case headF, tailF, "linkedlist.linkedListElem.next":
+						if rv := identVar(ev.Rhs, ev.Frame); rv != nil && !rv.IsField() {
+							a.note("R10", name+"/linked-element-fresh-or-listed", ev.Pos, !(freshLocal[rv] || fromList[rv]),
+								"an element linked into the list is freshly allocated or already part of it",
+								"the element "+rv.Name()+" linked into the list is neither allocated on this path nor read from the list: a recycled element brings its old next pointer along, which can make the list cyclic or drop its tail", p)
+						}
+					}
 				}
 				for _, f := range []string{headF, tailF} {
 					if !assignsField(ev, f, "") {
